@@ -150,7 +150,14 @@ def check(spec, ctx):
     from polyply.src.topology import Topology
     from polyply.src.meta_molecule import MetaMolecule
     import vermouth.forcefield
-    (ctx.dir / "sys.top").write_text(TOP)
+    top_text = TOP
+    if spec.get("rng", 1) % 2 == 0:
+        # the system topology defines one of the macros the generated file uses as a guard (a run with flexible
+        # bonds or position restraints): the guards of the re-read molecule stay what they are
+        tag = ["FLEX", "POSRES"][(spec["rng"] // 2) % 2]
+        top_text = top_text.replace("[ atomtypes ]", f"#define {tag}\n[ atomtypes ]")
+        ctx.label("guard_macro_defined_in_top")
+    (ctx.dir / "sys.top").write_text(top_text)
     # the process works in another directory that holds an older file of the same name: the include in
     # sys.top still means the file next to sys.top
     import os
